@@ -515,9 +515,17 @@ func checkTyped(o *sim.Outcome, w *world, ri int, run *GRun, ob *runObs, kind st
 	if signerFailed && !panicFault && ob.escaped == nil && !gensign.IsErrorOfType(ob.result, gensign.SignerSignErr) {
 		o.Fail("C04.kind", "signer_error_swallowed", step, "the CA failed a signing request but the run returned %q", kind)
 	}
-	if signerFailed && len(ob.provision) > 0 {
-		// the agent key whose CSR failed must not have been provisioned; with one agent key any provisioning is wrong
-		o.Fail("C04.kind", "provision_after_signer_failure", step, "certificates were handed to the agent although the CA failed a request")
+	failedSeq := 0
+	for _, c := range ob.ca {
+		if c.failed && failedSeq == 0 {
+			failedSeq = c.seq
+		}
+	}
+	for _, ps := range ob.provSeqs {
+		// agent keys whose requests were all signed before may have been provisioned already; nothing after the failure
+		if failedSeq != 0 && ps > failedSeq {
+			o.Fail("C04.kind", "provision_after_signer_failure", step, "certificates were handed to the agent after the CA had failed a request")
+		}
 	}
 	if ob.result == nil && ob.escaped == nil {
 		// success claims: every CSR signed, every returned cert held by the agent
